@@ -391,6 +391,8 @@ def _part_curves(case, ctx):
         ctx.label("snr:fine_grid")
     if cfg.get("set_phi") is not None:
         ctx.label("via_setPhaseOffset")
+    if form in ("array1d", "array2d") and len(used) >= 1:
+        _buffer_reuse(mod, cfg, used, case["L"], ctx, tags)
     # scalar and array calls agree
     if form in ("array1d", "array2d") and len(used) >= 1:
         i = len(used) // 2
@@ -399,6 +401,37 @@ def _part_curves(case, ctx):
             [REL_ORD * abs(ser[i]) +
              (1e-13 if cfg["cls"] == "QAM" else 1e-290)],
             "SER(scalar) != SER(array)[i]", tags)
+
+
+def _buffer_reuse(mod, cfg, used, L, ctx, tags):
+    """The user keeps ONE SNR buffer, updates it in place between queries on
+    the same modulator (snr += step).  Every query must answer for the values
+    the buffer holds at that moment: compared with a fresh modulator on a
+    fresh array."""
+    buf = np.array(used, dtype=float)
+    fresh = _build(cfg)
+    for step in (0.0, 3.0, -7.5):
+        buf += step
+        now = buf.copy()
+        for name, f_obj, f_new, extra in (
+                ("SER", mod.calcTheoreticalSER, fresh.calcTheoreticalSER, ()),
+                ("BER", mod.calcTheoreticalBER, fresh.calcTheoreticalBER, ()),
+                ("PER", mod.calcTheoreticalPER, fresh.calcTheoreticalPER,
+                 (L,)),
+                ("SE", mod.calcTheoreticalSpectralEfficiency,
+                 fresh.calcTheoreticalSpectralEfficiency, (L,))):
+            got = np.asarray(f_obj(buf, *extra), dtype=float)
+            ref = np.asarray(f_new(now.copy(), *extra), dtype=float)
+            if got.shape != ref.shape or not np.allclose(got, ref, rtol=1e-12,
+                                                         atol=0.0):
+                raise Violation("buffer_reuse", "%s of an SNR buffer that was "
+                                "updated in place (step %+.1f dB) differs "
+                                "from a fresh evaluation of the same values" %
+                                (name, step), tags)
+        if not np.array_equal(buf, now):
+            raise Violation("snr_array_modified", "a calcTheoretical* call "
+                            "changed the SNR array handed to it", tags)
+    ctx.label("buffer_reuse_checked")
 
 
 def check(case, ctx):
